@@ -14,14 +14,14 @@ import (
 
 // Item is a decoded data item together with where it sat in the input.
 type Item struct {
-	Major    int    // 0..7
-	AI       int    // additional information 0..27
-	Arg      uint64 // argument (value, length or count)
-	Off      int    // offset of the initial byte
-	HeadLen  int    // 1, 2, 3, 5 or 9
-	Len      int    // total encoded length of the item
-	Bytes    []byte // content of byte/text strings (aliases the input)
-	Elems    []Item // array elements; map: k0,v0,k1,v1,...; tag: the tagged item
+	Major   int    // 0..7
+	AI      int    // additional information 0..27
+	Arg     uint64 // argument (value, length or count)
+	Off     int    // offset of the initial byte
+	HeadLen int    // 1, 2, 3, 5 or 9
+	Len     int    // total encoded length of the item
+	Bytes   []byte // content of byte/text strings (aliases the input)
+	Elems   []Item // array elements; map: k0,v0,k1,v1,...; tag: the tagged item
 }
 
 var (
